@@ -15,7 +15,8 @@ EXPLANATION = (
     "C04.3 trimming is reachable and accounted: free's top-merge edge calls sys_trim under should_trim, sys_trim reaches syscall_free_part and release_unused_segments, release_unused_segments reaches syscall_free, "
     "the large-chunk path of free counts release_checks down and calls release_unused_segments at zero, every successful unmap is followed by `footprint -= size` and every successful map by `footprint += size`; "
     "C04.4 reuse before growth: inner_malloc's only call of sys_alloc comes after the dv / top / bin attempts (dominated by the failing edges of the `nb <= dvsize` and `nb < topsize` tests), and sys_alloc has no other caller; "
-    "C04.5 segments are not forgotten: add_segment stores the previous segment record and links it. "
+    "C04.5 segments are not forgotten: add_segment stores the previous segment record and links it; "
+    "C04.6 nothing is dropped on the way to the free routine: every GlobalAlloc::dealloc reaches Dlmalloc::free with its argument on every path, and every remainder split off in try_realloc_chunk is handed to dispose_chunk on every path. "
     "NOT decided: the bound itself (a quantitative statement about fragmentation over arbitrary histories) and VmSize behaviour.")
 ASSUMPTIONS = ["dlmalloc's bin/tree invariants (not established here)"]
 
@@ -60,6 +61,41 @@ def run_one(ck, prog):
         ck.ob("C04.1", f"{nm}|every-path-disposes-of-the-chunk", not bad, fn=fn["path"],
               detail="a path of the free routine returns without unmapping the chunk, merging it into top/dv or putting it into a bin: that chunk is lost for good (one leak per such call)",
               path=cfg.render_path(path) if path else None)
+
+    # ---- C04.6 nothing is dropped on the way to the free routine ------------------------------------------------------------------
+    # (a) every GlobalAlloc::dealloc reaches Dlmalloc::free on every path (a free that is skipped leaks the block for good)
+    deallocs = [f for p2, f in prog.fns.items() if p2.endswith("GlobalAlloc>::dealloc") and "allocator" in p2]
+    ck.floor("C04.6", "GlobalAlloc::dealloc implementations", len(deallocs), 1)
+    for f in deallocs:
+        c6 = prog.ctx(f)
+        frees = {bb for bb, t in c6.cfg.calls(lambda t: t.get("callee") == DL + "free")}
+        r6 = c6.cfg.reachable_from(0, avoid=frees)
+        skipped = [rb for rb in c6.cfg.return_blocks() if rb in r6]
+        path = c6.cfg.find_path(0, lambda b: b in skipped, avoid=frees) if skipped else None
+        who = f["path"].split(" as ")[0].lstrip("<").split("::")[-1]
+        ck.ob("C04.6", f"dealloc-always-frees|{who}", bool(frees) and not skipped, fn=f["path"], path=c6.cfg.render_path(path) if path else None,
+              detail="GlobalAlloc::dealloc can return without calling Dlmalloc::free (e.g. after giving up on the lock): every such call leaks its block, so the heap grows with the number of calls")
+        for fb in frees:
+            a = c6.args(fb)
+            ck.ob("C04.6", f"dealloc-frees-its-argument|{who}", len(a) >= 2 and canon(a[1]) == "p2", fn=f["path"], site=c6.site(fb), detail=f"free must be given the pointer being deallocated, got {show(a[1]) if len(a) > 1 else None}")
+    # (b) a remainder split off a chunk (marked in use so that dispose_chunk can take it) is disposed of on every path
+    trc = prog.fns.get(DL + "try_realloc_chunk")
+    if ck.anchor("C04.6", "try_realloc_chunk", trc):
+        c7 = prog.ctx(trc)
+        n_rem = 0
+        for bb, t in c7.cfg.calls(lambda t: (t.get("callee") or "").endswith("Chunk::set_inuse")):
+            a = c7.args(bb)
+            if canon(a[0]) == "p2":
+                continue          # the chunk being resized itself
+            n_rem += 1
+            disp = {db for db, t2 in c7.cfg.calls(lambda t2: t2.get("callee") == DL + "dispose_chunk") if canon(c7.args(db)[1]) == canon(a[0])}
+            nxt = c7.cfg.term(bb).get("t")
+            r7 = c7.cfg.reachable_from(nxt, avoid=disp) if nxt is not None else set()
+            lost = [rb for rb in c7.cfg.return_blocks() if rb in r7]
+            path = c7.cfg.find_path(nxt, lambda b: b in lost, avoid=disp) if lost else None
+            ck.ob("C04.6", f"split-remainder-always-disposed|{canon(a[0])}", bool(disp) and not lost, fn=trc["path"], site=c7.site(bb), path=c7.cfg.render_path(path) if path else None,
+                  detail="the tail split off by a shrinking/extending realloc is marked in use but not handed to dispose_chunk on every path: it becomes an in-use chunk nobody owns (never freed, and it blocks coalescing of its neighbours)")
+        ck.floor("C04.6", "remainders split in try_realloc_chunk", n_rem, 2)
 
     fr = prog.fns.get(DL + "free")
     if fr is None:
